@@ -583,7 +583,7 @@ fn main() {
         }
         let e1 = rep.evaluations;
         let mut b = Report::new();
-        run_bfs(ctx.tier.pick(2, 3), ctx.tier.pick(7, 10), ctx.tier.pick(45, 700), ctx.tier.pick(400_000, 4_000_000), &mut b);
+        run_bfs(ctx.tier.pick(2, 3), ctx.tier.pick(7, 16), ctx.tier.pick(45, 700), ctx.tier.pick(400_000, 4_000_000), &mut b);
         let bfs_states = b.states;
         rep.merge_in(b);
         rep.extra("partition_histories", json!(pure));
@@ -598,7 +598,7 @@ fn main() {
         &ctx,
         rep,
         Spec {
-            rule: "real BroadcastingStore<InMemoryStore>, network head 10 stored, two draining subscribers (one from before the first init_broadcast, one from after it). (1) every ordered partition of 11..=16 into contiguous ranges in every insertion order (1631 histories); pieces the store refuses (no adjacent neighbour) are offered again at the end, then 10..=16 must have been delivered exactly; thorough: each of them with one extra event inserted at every position from {historical insert 8..=9, historical insert 5..=7, re-initialisation with head = last sent +0/+1/+2, with the store head +0/+1, repeated (refused) insert}. (2) BFS over all event histories with de-duplication on (stored ranges, last sent height, pending list in order, both subscribers' logs, re-initialisations used): events = announce_insert of every range a..=b in 11..=16 that does not straddle the last sent height (accepted or refused by the store), the two historical ranges in any order, re-initialisation with any head from the store head to 16 (at most 2 (q) / 3 (t) per history); depth 7 (q) / 10 (t). (3) single ranges of 15,16,17,33,64 headers against the 16-slot channel. After every event: each subscriber's stream is consecutive (+1), starts at the head (A) / head+1 (B), every received header is a genuine one and stored at the moment of receipt, no Lagged; after every accepted insert above the last sent height: every height stored contiguously above the head has been delivered",
+            rule: "real BroadcastingStore<InMemoryStore>, network head 10 stored, two draining subscribers (one from before the first init_broadcast, one from after it). (1) every ordered partition of 11..=16 into contiguous ranges in every insertion order (1631 histories); pieces the store refuses (no adjacent neighbour) are offered again at the end, then 10..=16 must have been delivered exactly; thorough: each of them with one extra event inserted at every position from {historical insert 8..=9, historical insert 5..=7, re-initialisation with head = last sent +0/+1/+2, with the store head +0/+1, repeated (refused) insert}. (2) BFS over all event histories with de-duplication on (stored ranges, last sent height, pending list in order, both subscribers' logs, re-initialisations used): events = announce_insert of every range a..=b in 11..=16 that does not straddle the last sent height (accepted or refused by the store), the two historical ranges in any order, re-initialisation with any head from the store head to 16 (at most 2 (q) / 3 (t) per history); depth 7 (q) / until no new state appears (t; reached before depth 16). (3) single ranges of 15,16,17,33,64 headers against the 16-slot channel. After every event: each subscriber's stream is consecutive (+1), starts at the head (A) / head+1 (B), every received header is a genuine one and stored at the moment of receipt, no Lagged; after every accepted insert above the last sent height: every height stored contiguously above the head has been delivered",
             assumptions: &[
                 "the first init_broadcast itself broadcasts the network head (already stored by try_init): a subscriber that exists before it sees head, head+1, ...; one that subscribes after it sees head+1, ... — both are accepted as 'starting after that head'",
                 "a re-initialisation head is stored by try_init, not by announce_insert; the code delivers it on the next accepted announce_insert ('sorted out on next insert'), so completeness is demanded after every accepted insert above the last sent height, not after a re-initialisation alone",
